@@ -460,9 +460,62 @@ fn cli_one(seed: u64, idx: u64, work: &Path, rep: &mut Report) {
     std::fs::create_dir_all(&dir).unwrap();
     std::fs::write(dir.join("basis"), &basis).unwrap();
     std::fs::write(dir.join("d.delta"), bincode::serialize(&d).unwrap()).unwrap();
+    // the output path has a past: a longer stale file, or an earlier patch run (rejected or accepted) that
+    // wrote more bytes to the same -o than this one will.  Exit 0 still has to mean "out hashes to checksum".
+    let prior = rng.below(5);
+    let mut prior_s = "fresh-output";
+    if prior == 1 {
+        let n = c.source.len() + rng.range(1, 70_000);
+        std::fs::write(dir.join("out"), rng.bytes(n)).unwrap();
+        prior_s = "stale-longer-output-file";
+    } else if prior >= 2 {
+        let mut c2 = gen_case(&mut rng, bs, 32 * 1024);
+        let n = c.source.len() + rng.range(1, 70_000);
+        let extra = rng.bytes(n);
+        c2.source.extend_from_slice(&extra);
+        if let (Caught::Ok(Ok(sig2)), true) = (sig_generate(&c2.basis, bs), true) {
+            if let Caught::Ok(Ok(mut d2)) = delta_sync(&c2.source, &sig2) {
+                if prior == 2 || prior == 3 {
+                    let mut h = *d2.checksum.as_bytes();
+                    h[0] ^= 1;
+                    d2.checksum = copia::StrongHash::from_bytes(h);
+                    prior_s = "earlier-rejected-longer-patch-to-same-output";
+                } else {
+                    prior_s = "earlier-accepted-longer-patch-to-same-output";
+                }
+                std::fs::write(dir.join("basis0"), &c2.basis).unwrap();
+                std::fs::write(dir.join("d0.delta"), bincode::serialize(&d2).unwrap()).unwrap();
+                let r0 = run_copia(&["patch", "basis0", "d0.delta", "-o", "out"], &dir);
+                rep.count("cli_prior_patch_runs", 1);
+                if r0.code == Some(0) {
+                    let out = std::fs::read(dir.join("out")).unwrap_or_default();
+                    if blake3::hash(&out).as_bytes() != d2.checksum.as_bytes() {
+                        rep.violation("C05|cli|exit0-but-hash-mismatch|prior-run", json!({"seed": seed, "cli_case": idx, "prior": prior_s}));
+                    }
+                }
+            }
+        }
+    }
+    rep.distinct.insert(format!("cli-output-history|{prior_s}"));
+    // half of the judged runs apply the untouched delta to the untouched basis: the only way that can go wrong
+    // is through what earlier runs left behind
+    let clean = prior != 0 && rng.chance(1, 2);
+    if clean {
+        let Caught::Ok(Ok(d1)) = delta_sync(&c.source, &sig) else { return };
+        d = d1;
+        std::fs::write(dir.join("basis"), &c.basis).unwrap();
+        std::fs::write(dir.join("d.delta"), bincode::serialize(&d).unwrap()).unwrap();
+        faults.clear();
+    }
     let r = run_copia(&["patch", "basis", "d.delta", "-o", "out"], &dir);
-    let fc = faults.iter().map(|f| f.class).collect::<Vec<_>>().join("+");
-    let ctx = json!({"seed": seed, "cli_case": idx, "faults": fc, "bs": d.block_size});
+    let mut fc = faults.iter().map(|f| f.class).collect::<Vec<_>>().join("+");
+    if clean {
+        fc = "no-fault".into();
+        if r.code != Some(0) {
+            rep.count("cli_valid_patch_refused_after_history", 1);
+        }
+    }
+    let ctx = json!({"seed": seed, "cli_case": idx, "faults": fc, "bs": d.block_size, "prior": prior_s});
     rep.count("cli_patch_runs", 1);
     if r.code == Some(97) && crate::c01::valgrind() {
         rep.violation("C05|cli|valgrind-memcheck-error", json!({"ctx": ctx, "stderr": r.stderr.chars().take(600).collect::<String>()}));
